@@ -203,4 +203,69 @@ theorem decodeParam_obj (o : Obj) (ho : o.ok) (fuel : Nat) (d : DecState)
           uint32OfRaw, bind, pure, run_bind, run_pure, run_getS, run_modifyS, run_ite, run_raise, BaseType.isNumeric, hb0, hnl,
           he, hb, h64, decStep, Obj.pos, Obj.k, Obj.bp]
 
+/-! ### CODED-CONST parameters over the same objects -/
+
+/-- a CODED-CONST parameter whose diag-coded type is the object's and whose coded value is `v` -/
+def Obj.toConstParam (o : Obj) (v : IVal) : Param :=
+  .mk o.name o.bytePos o.bitPos (.codedConst (.std o.bt o.enc o.hl o.bl none false) v)
+
+/-- encoding a CODED-CONST parameter (value not supplied, or supplied and equal) = the same pure step -/
+theorem encodeParam_const_obj (o : Obj) (ho : o.ok) (v : IVal) (hr : o.inRange v) (pv : Option PVal)
+    (hpv : pv = none ∨ pv = some (.atom v)) (fuel : Nat) (s : EncState) :
+    encodeParam (fuel + 1) (o.toConstParam v) pv s true = .ok ((), encStep o v s) := by
+  obtain ⟨hlt, -⟩ := o.raw_spec ho v hr
+  obtain ⟨hk, hbl, hbl64⟩ := ho
+  have hb0 : o.bl ≠ 0 := by omega
+  have h64 : ¬ (64 < o.bl) := by omega
+  have hge : ¬ (2 ^ o.bl ≤ o.raw v) := by omega
+  have hmask : ∀ bp, ¬ (256 ^ ((o.bl + bp + 7) / 8) ≤ (2 ^ o.bl - 1) * 2 ^ bp) :=
+    fun bp => Nat.not_le.mpr (mask_fits o.bl bp)
+  unfold Obj.inRange at hr
+  unfold Obj.encOk at hk
+  unfold Obj.raw at hge
+  cases hkind : o.kind <;> cases v <;> simp only [hkind] at hr hk hge
+  · rename_i i
+    rcases hpv with rfl | rfl <;>
+    · simp [Obj.toConstParam, Obj.bt, hkind, encodeParam, encodeDct, emplaceAtomic, emplaceBytes, bind, pure,
+        run_ite, run_bind, run_pure, run_getS, run_setS, run_modifyS, run_raise, BaseType.isNumeric,
+        rawOfInt32_ok o.enc hk o.bl hbl i hr, hb0, hge, hmask, h64]
+      cases hh : o.hl <;> cases hb : o.bytePos <;>
+        simp [encStep, Obj.raw, hkind, Obj.pos, Obj.k, Obj.bp, Obj.mask, ord, toBytesBE_length, hh, hb]
+  · rename_i i
+    rcases hpv with rfl | rfl <;>
+    · simp [Obj.toConstParam, Obj.bt, hkind, encodeParam, encodeDct, emplaceAtomic, emplaceBytes, bind, pure,
+        run_ite, run_bind, run_pure, run_getS, run_setS, run_modifyS, run_raise, BaseType.isNumeric,
+        rawOfUInt32_ok o.enc hk o.bl i hr.1 hr.2, hb0, hge, hmask, h64]
+      cases hh : o.hl <;> cases hb : o.bytePos <;>
+        simp [encStep, Obj.raw, hkind, Obj.pos, Obj.k, Obj.bp, Obj.mask, ord, toBytesBE_length, hh, hb]
+
+/-- decoding a CODED-CONST parameter returns what is on the wire (a mismatch with the constant is only warned about) -/
+theorem decodeParam_const_obj (o : Obj) (ho : o.ok) (v : IVal) (fuel : Nat) (d : DecState)
+    (hlen : o.pos d.origin d.cursorByte + o.k ≤ d.msg.length) :
+    decodeParam (fuel + 1) (o.toConstParam v) d true = .ok (.atom (decStep o d).1, (decStep o d).2) := by
+  obtain ⟨hk, hbl, hbl64⟩ := ho
+  have hb0 : o.bl ≠ 0 := by omega
+  have h64 : ¬ (64 < o.bl) := by omega
+  unfold Obj.encOk at hk
+  unfold Obj.pos Obj.k Obj.bp at hlen
+  cases hkind : o.kind <;> simp only [hkind] at hk
+  · unfold int32Known at hk
+    simp only [Bool.or_eq_true, decide_eq_true_eq] at hk
+    have hk' : o.enc = none ∨ o.enc = some Enc.onec ∨ o.enc = some Enc.twoc ∨ o.enc = some Enc.sm := by
+      rcases hk with ((h | h) | h) | h <;> simp [h]
+    cases hb : o.bytePos <;> simp only [hb] at hlen
+    all_goals
+      have hnl : ¬ (d.msg.length < _ + (o.bl + o.bitPos.getD 0 + 7) / 8) := Nat.not_lt.mpr hlen
+      simp [Obj.toConstParam, Obj.bt, Obj.ofRaw, hkind, decodeParam, decodeDct, extractAtomic, extractCore, convertRaw,
+        bind, pure, run_bind, run_pure, run_getS, run_modifyS, run_ite, run_raise, BaseType.isNumeric, hb0, hnl, hk', hb, h64,
+        decStep, Obj.pos, Obj.k, Obj.bp]
+  · cases hb : o.bytePos <;> simp only [hb] at hlen
+    all_goals
+      have hnl : ¬ (d.msg.length < _ + (o.bl + o.bitPos.getD 0 + 7) / 8) := Nat.not_lt.mpr hlen
+      rcases hk with he | he
+      all_goals
+        simp [Obj.toConstParam, Obj.bt, Obj.ofRaw, hkind, decodeParam, decodeDct, extractAtomic, extractCore, convertRaw,
+          uint32OfRaw, bind, pure, run_bind, run_pure, run_getS, run_modifyS, run_ite, run_raise, BaseType.isNumeric, hb0, hnl,
+          he, hb, h64, decStep, Obj.pos, Obj.k, Obj.bp]
+
 end OdxVerif.Codec
